@@ -106,7 +106,7 @@ async def scenario(net, hyg, name, password):
             r = await p.cmd("QUIT")
             p.cut("fin")
         await net.settle()
-        await w.server.close()
+        await w.stop()
         return outcome
     finally:
         w.cleanup()
@@ -143,7 +143,7 @@ def run_case(case):
         for name in SCENARIOS:
             out1, logs1, info = run_scenario(name, pw, case["seed"])
             if out1 is None:
-                return {"inconclusive": info.get("deadlock") or info.get("error"), "trace": info.get("trace", "")}
+                return W.failed(info)
             stream1, texts1 = logs1
             mon["records_seen"] += len(stream1)
             cls = "short" if len(pw) < 3 else ("plain" if pw.isalnum() else "meta")
@@ -151,7 +151,7 @@ def run_case(case):
             if tw is not None:
                 out2, logs2, info2 = run_scenario(name, tw, case["seed"])
                 if out2 is None:
-                    return {"inconclusive": info2.get("deadlock") or info2.get("error"), "trace": info2.get("trace", "")}
+                    return W.failed(info2)
                 stream2, texts2 = logs2
                 mon["non_interference"] += 1
                 if out1 == out2 and stream1 != stream2:
